@@ -410,7 +410,9 @@ def r4_every_error(ctx):
         ok3 = len(pre) == 1 and pre[0] is tests[0]
         yield Ob('error_html:error_html.gen_seg only code 3 is printed before the segment', ok3, ctx.floc(f), '' if ok3 else 'filters swapped')
     # both blocks iterate all nodes and their error lists
-    loops = [n for n in ast.walk(f) if isinstance(n, ast.For) and path_of(n.iter) == 'err_node_list']
+    loops = [n for n in ast.walk(f) if isinstance(n, ast.For) and path_of(n.iter) == 'err_node_list'] + \
+        [g_ for n in ast.walk(f) if isinstance(n, (ast.ListComp, ast.SetComp, ast.DictComp, ast.GeneratorExp)) for g_ in n.generators
+         if path_of(g_.iter) == 'err_node_list']
     ok = len(loops) >= 3
     yield Ob('error_html:error_html.gen_seg iterates every collected error node', ok, ctx.floc(f), '' if ok else '%d loops over err_node_list' % len(loops))
     inner = [n for n in ast.walk(f) if isinstance(n, ast.For) and norm(n.iter) == 'err_node.elements']
@@ -662,6 +664,53 @@ def r7_node_filters(ctx):
                  ctx.floc(fn), '' if not bad else '; '.join(bad[:3]), note='%d codes, %d raised by the reader' % (len(universe), len(at_hdr | at_trl)))
 
 
+def _method_of(ctx, cname, meth):
+    """the FunctionDef that `cname().meth` resolves to in error_handler (the class itself, then its bases in the module)"""
+    seen = set()
+    while cname and cname not in seen:
+        seen.add(cname)
+        cls = ctx.cls('error_handler', cname)
+        for f in cls.body:
+            if isinstance(f, ast.FunctionDef) and f.name == meth:
+                f._mod = ctx.mod('error_handler')
+                return f
+        cname = next((b.id for b in cls.bases if isinstance(b, ast.Name)), None)
+        if cname == 'object':
+            break
+    raise AnalysisError('error_handler: %s is not defined for %s' % (meth, cname))
+
+
+def r9_segment_and_element_lists(ctx):
+    """the report prints, for a segment node, the errors get_error_list(id, True) returns that have code 3 before the
+    segment line and the errors get_error_list(id, False) returns that do not have code 3 after it; for an element node
+    everything get_error_list(id, False) returns.  Decided by constant propagation per code on the methods the two node
+    classes actually inherit: every segment error is printed exactly once, every element error is printed - also an
+    element error with code 3 ("too many elements")."""
+    from ..absint import run_function, helper_oracles, NotClosedTest
+    hfuncs = helper_oracles(ctx, 'error_handler')
+    codes = ('1', '2', '3', '4', '5', '6', '7', '8', '10', 'SEG1', 'HL1', 'LX')
+    for cname, kind in (('err_seg', 'segment'), ('err_ele', 'element')):
+        fn = _method_of(ctx, cname, 'get_error_list')
+        bad = []
+        for code in codes:
+            err = (code, 'message', 'value')
+
+            def listed(pre):
+                try:
+                    got = run_function(ctx.cfg(fn), fn, [None, 'NM1', pre], hfuncs, env={'self.errors': (err,)})
+                except (NotClosedTest, A.NotClosed) as e:
+                    raise AnalysisError('%s.get_error_list cannot be decided: %s' % (cname, e))
+                return bool(got) and err in tuple(got)
+            if kind == 'segment':
+                n = int(listed(True) and code == '3') + int(listed(False) and code != '3')
+            else:
+                n = int(listed(False))
+            if n != 1:
+                bad.append('a %s error with code %s is printed %d times' % (kind, code, n))
+        yield Ob('error_handler:%s.get_error_list hands every %s error to the report once' % (cname, kind), not bad, ctx.floc(fn),
+                 '' if not bad else '; '.join(bad[:3]))
+
+
 def r5_escaped_once(ctx):
     """stripping the markup recovers the source: text is escaped exactly once.  A self attribute that already holds
     escaped text (assigned from escape_html_chars) must not be passed through escape_html_chars again."""
@@ -696,5 +745,6 @@ RULES = [
     Rule('C19.R6', 'the error iterator steps from a node to its immediate next sibling (no error node is passed over)', r6_error_iterator_steps, floor=1),
     Rule('C19.R7', 'node-level error filters: each code at exactly one of header / trailer line, where the reader raises it', r7_node_filters, floor=3),
     Rule('C19.R8', 'error iterator replayed over model trees: every loop node collected at header and trailer, second interchange included', r8_iterator_collects, floor=1),
+    Rule('C19.R9', 'segment and element nodes hand every error to the report exactly once (inherited get_error_list decided per code)', r9_segment_and_element_lists, floor=2),
     Rule('C19.R5', 'no text is escaped twice', r5_escaped_once, floor=5),
 ]
